@@ -4,6 +4,8 @@ the code in the same way.  `./check X01` etc.; evidence goes to extras/evidence/
 X01  BackgroundTask  (mpservice/background_task.py): the task catalog with shared tasks, forgotten tasks, cancellation, result
      retrieval.  The model describes the code AS FOUND (OwnEntryOnly = FALSE) - the conformance leg passes on it - and the two
      promises the as-found design does not keep are refuted in the model as documented observations (DESIGN.md 11.9).
+
+X02  ProcessRunner  (mpservice/multiprocessing/runner.py): instruction queue, one-slot result queue, the long-lived worker object.
 """
 from __future__ import annotations
 
@@ -69,3 +71,43 @@ def x01(ck, replay=None):
                        'ignores the cancel flag (using it is optional); calls are made one at a time']
     ck.finish_rc = ck.finish(rule='every public call returns / raises what the model says and leaves callers, retrieved count, '
                              'cancelled(), done() of every task and the whole catalog as in the model state')
+
+
+def pr_cfg(invariants=(), properties=(), spec='Spec', maxcalls=4, deadlock=True):
+    return tlc.cfg_text(spec=spec, constants=dict(MaxCalls=maxcalls), invariants=invariants, properties=properties,
+                        deadlock=deadlock)
+
+
+def _report(ck, out, items, leg_name):
+    nsteps = 0
+    for r in out.get('results', []):
+        nsteps += int(r.get('steps', 0))
+        if r['status'] == 'machinery':
+            from mbt.framework import Machinery
+            raise Machinery(f'{ck.pid} replay: {r.get("detail")}')
+        if r['status'] != 'ok':
+            ck.violation({'leg': 'L2', 'item': {'id': r['id'], 'beh': items[r['id']]['beh'] if r['id'] < len(items) else None},
+                          **(r.get('detail') or {})}, sig={'leg': 'L2', **r.get('sig', {})})
+    ck.evaluations += nsteps
+    ck.legs.append({'leg': 'L2', 'name': leg_name, 'replays': len(items), 'calls_compared': nsteps})
+    return nsteps
+
+
+def x02(ck, replay=None):
+    thorough = ck.tier == 'thorough'
+    inv = ['Fifo', 'ResultSlot', 'CallsInOrder', 'ServedBeforeExit']
+    ck.l1('ProcessRunner/safety + join returns when results are collected', 'ProcessRunner',
+          pr_cfg(inv, ['JoinReturns'], spec='FairSpec', maxcalls=6 if thorough else 4), may_skip=('Next',))
+    for goal in ('Trap_JoinStuck', 'Trap_ErrThenOk'):
+        ck.trap(goal, 'ProcessRunner', pr_cfg([goal]))
+    behs = simulate('ProcessRunner', pr_cfg([], maxcalls=8, deadlock=False), num=320 if thorough else 48, depth=40,
+                    seed=ck.seed * 7919 + 29)
+    items = [{'id': k, 'beh': [[a, st] for a, st in b]} for k, b in enumerate(behs) if len(b) > 1]
+    out = ck.run_binder('procrunner', items, timeout=900, extra={'detsched': False})
+    _report(ck, out, items, 'TLC behaviours replayed on the real ProcessRunner (a real background process each)')
+    ck.sample({'kind': 'replayed_history', 'acts': [[a.split('(')[0], st['act']['k'], st['act']['o'], st['act']['n']]
+                                                    for a, st in items[0]['beh'][1:] if not a.startswith('Worker')]})
+    ck.assumptions += ['one caller thread; restart() arguments and results are small picklable values']
+    ck.finish_rc = ck.finish(rule='the k-th rejoin() returns / raises the outcome of the k-th restart(), computed by the one long-lived '
+                             'object (its own call counter), exceptions arrive as remote exceptions; after join() the process has '
+                             'ended with exit code 0 and the object was entered and exited exactly once')
